@@ -447,41 +447,83 @@ def needs_mc(name, spec):
 
 
 def site_inside_cond_branch(G, A, ctx):
-    """Open finding adev-site-in-cond-branch: ADEV.forward_mode applies the continuation of a lax.cond only AFTER the whole branch has been
-    evaluated, so an enumeration / score-function / measure-valued site INSIDE a branch sees only the rest of the branch as its continuation.
-    With a non-linear computation after the cond the estimator is biased (exact for linear continuations).  Recognised as the known finding only
-    when the value equals the branch-local prediction  p (E[x | b=T])^2 + (1-p) p^2."""
+    """A site INSIDE a lax.cond branch must see the whole rest of the program as its continuation (a repaired defect, fix b0f97e1:
+    ADEV.forward_mode applied the continuation of the cond to the RESULT of the branch, so the estimator averaged the branch value first;
+    biased for every non-linear computation after the cond, Lean witness `C11_asis_cond_branch_cex`).  Enumeration sites in a branch
+    followed by x**2 / exp / a second cond: exact value and gradient; a measure-valued site in a branch followed by exp: exact
+    (zero-variance) gradient; linear continuation as a control."""
     import jax
     import jax.numpy as jnp
+    import jax.random as jr
 
-    def f(p, q):
-        b = A.flip_enum(p)
-        x = jax.lax.cond(b, lambda: jnp.where(A.flip_enum(q), 2.0, -1.0) * q, lambda: p)
+    def inner(q):
+        return jnp.where(A.flip_enum(q), 2.0, -1.0) * q
+
+    def f_sq(p, q):
+        x = jax.lax.cond(A.flip_enum(p), lambda: inner(q), lambda: p)
         return x ** 2
 
     def f_lin(p, q):
-        b = A.flip_enum(p)
-        x = jax.lax.cond(b, lambda: jnp.where(A.flip_enum(q), 2.0, -1.0) * q, lambda: p)
+        x = jax.lax.cond(A.flip_enum(p), lambda: inner(q), lambda: p)
         return 3.0 * x + p
 
+    def f_exp2(p, q):       # two conds in sequence, both with a site inside, non-linear end
+        x = jax.lax.cond(A.flip_enum(p), lambda: inner(q), lambda: p)
+        y = jax.lax.cond(x > 0.5, lambda: jnp.where(A.flip_enum(p), 1.0, 0.0) + x, lambda: x)
+        return jnp.exp(y)
+
+    import math
     p, q = 0.3, 0.6
-    exact = p * (q * (2 * q) ** 2 + (1 - q) * q ** 2) + (1 - p) * p ** 2
-    asis = p * (q * 2 * q - (1 - q) * q) ** 2 + (1 - p) * p ** 2
-    exact_lin = 3 * (p * (q * 2 * q - (1 - q) * q) + (1 - p) * p) + p
-    case = {"kind": "site-inside-cond-branch", "p": p, "q": q, "exact": exact}
+
+    def E_sq(p, q):
+        return p * (q * (2 * q) ** 2 + (1 - q) * q ** 2) + (1 - p) * p ** 2
+
+    def E_lin(p, q):
+        return 3 * (p * (q * 2 * q - (1 - q) * q) + (1 - p) * p) + p
+
+    def E_exp2(p, q):
+        def second(x):
+            return (p * math.exp(1 + x) + (1 - p) * math.exp(x)) if x > 0.5 else math.exp(x)
+        return p * (q * second(2 * q) + (1 - q) * second(-q)) + (1 - p) * second(p)
+
+    def num_grad(E):
+        h = 1e-5
+        return ((E(p + h, q) - E(p - h, q)) / (2 * h), (E(p, q + h) - E(p, q - h)) / (2 * h))
+
+    for name, f, E in (("x**2", f_sq, E_sq), ("linear", f_lin, E_lin), ("cond-then-exp", f_exp2, E_exp2)):
+        case = {"kind": "site-inside-cond-branch", "continuation": name, "p": p, "q": q, "exact": E(p, q)}
+        try:
+            e = A.expectation(f)
+            got = float(e.estimate(jnp.float32(p), jnp.float32(q)))
+            gp, gq = (float(v) for v in e.grad_estimate(jnp.float32(p), jnp.float32(q)))
+            ep, eq = num_grad(E)
+            case.update({"estimate": got, "grad": [gp, gq], "exact_grad": [ep, eq]})
+            if abs(got - E(p, q)) > 1e-4 * (1 + abs(E(p, q))):
+                ctx.property_failure(None, f"flip_enum (zero variance) inside a cond branch followed by {name}: estimate {got:.5f} != exact E[f] = {E(p, q):.5f}", case)
+            if abs(gp - ep) > 2e-3 * (1 + abs(ep)) or abs(gq - eq) > 2e-3 * (1 + abs(eq)):
+                ctx.property_failure(None, f"flip_enum inside a cond branch followed by {name}: grad_estimate ({gp:.4f}, {gq:.4f}) != exact ({ep:.4f}, {eq:.4f})", case)
+        except Exception as e_:
+            impl.reset_handlers()
+            ctx.property_failure(None, f"site inside a cond branch ({name}) raised {type(e_).__name__}: {str(e_)[:150]}", case)
+        ctx.case(sample=case if name == "x**2" else None, nontrivial_key=("site-inside-cond-branch", name))
+        ctx.count("site-inside-cond-branch")
+
+    # measure-valued site in a branch, exp afterwards: the MVD flip estimator is exact per draw (both outcomes are evaluated)
+    def f_mvd(t):
+        x = jax.lax.cond(t > 0.1, lambda: jnp.where(A.flip_mvd(t), 2.0, -1.0), lambda: t)
+        return jnp.exp(x)
+
+    case = {"kind": "site-inside-cond-branch", "continuation": "mvd-then-exp"}
     try:
-        got = float(A.expectation(f).estimate(jnp.float32(p), jnp.float32(q)))
-        lin = float(A.expectation(f_lin).estimate(jnp.float32(p), jnp.float32(q)))
-        case.update({"estimate": got, "branch_local_prediction": asis})
-        if abs(lin - exact_lin) > 1e-4:
-            ctx.property_failure(None, f"flip_enum inside a cond branch, LINEAR continuation: estimate {lin} != exact {exact_lin}", case)
-        if abs(got - exact) > 1e-4:
-            ctx.property_failure("adev-site-in-cond-branch", f"flip_enum (zero variance) inside a cond branch followed by x**2: estimate {got:.5f} != exact E[f] = {exact:.5f}",
-                                 case, matches_asis=abs(got - asis) < 1e-4)
-    except Exception as e:
+        gs = np.asarray(jax.vmap(lambda k: G.seed(A.expectation(f_mvd).grad_estimate)(k, jnp.float32(0.3)))(jr.split(jr.key(5), 64)))
+        want = math.exp(2.0) - math.exp(-1.0)
+        case.update({"mean_grad": float(gs.mean()), "exact": want})
+        if np.abs(gs - want).max() > 1e-3 * want:
+            ctx.property_failure(None, f"flip_mvd inside a cond branch followed by exp: gradient draws in [{gs.min():.4f}, {gs.max():.4f}], the estimator is exactly {want:.4f} for every draw", case)
+    except Exception as e_:
         impl.reset_handlers()
-        ctx.property_failure(None, f"site inside a cond branch raised {type(e).__name__}: {str(e)[:150]}", case)
-    ctx.case(sample=case, nontrivial_key="site-inside-cond-branch")
+        ctx.property_failure(None, f"flip_mvd inside a cond branch raised {type(e_).__name__}: {str(e_)[:150]}", case)
+    ctx.case(nontrivial_key=("site-inside-cond-branch", "mvd"))
     ctx.count("site-inside-cond-branch")
 
 
